@@ -338,6 +338,11 @@ class Dendrogram(object):
             progress_bar.show_progress()
             print("")  # newline
 
+        # A user criterion may have read (and thereby cached) levels or
+        # descendants while the tree was still growing
+        for structure in structures.values():
+            structure._reset_cache()
+
         # Create trunk from objects with no ancestors
         _make_trunk(self, structures, is_independent)
 
